@@ -105,6 +105,50 @@ theorem buffered_bytes_conserved (c : Conn) (s sid : Nat) (d : Bytes) (fin : Boo
     ∧ ((c.liveS s = true ∨ s ≠ sid) → (c.streamWindowUpdated s).1.held sid = c.held sid) :=
   ⟨held_sendData c s sid d fin, fun f w sent => held_flushLoop f c s sid w sent, held_streamWindowUpdated c s sid⟩
 
+/-- … lifted to `connection_window_updated`, the last entry point: the round robin over all buffers (any number of
+    rounds, any windows, any order of the dict) conserves, for every well-kept stream, the bytes on the wire followed by
+    the bytes still buffered — and leaves the stream well kept.  `StreamOk`: nothing is buffered for a stream that cannot
+    send any more, and an end of stream waits behind all its data. -/
+theorem buffered_bytes_conserved_connection (c : Conn) (sid : Nat) (h : StreamOk c sid) :
+    (∀ f, (Conn.connWindowUpdated f c).held sid = c.held sid ∧ StreamOk (Conn.connWindowUpdated f c) sid)
+    ∧ c.connWindowUpdated'.held sid = c.held sid
+    ∧ (∀ s, (c.streamWindowUpdated s).1.held sid = c.held sid ∧ StreamOk (c.streamWindowUpdated s).1 sid) :=
+  ⟨fun f => connWindowUpdated_ok f c sid h, (connWindowUpdated_ok _ c sid h).1, fun s => streamWindowUpdated_ok c s sid h⟩
+
+/-- `StreamOk` is what the callers keep up: it holds initially and `send_data` (of any size, split at the frame size or
+    not) on a stream that may still send and has no end of stream pending keeps it for every stream -/
+theorem stream_ok_invariant (c : Conn) (s sid : Nat) (d : Bytes) (fin : Bool) :
+    StreamOk Conn.init sid ∧ (CanSubmit c s → StreamOk c sid → StreamOk (c.sendData s d fin) sid) :=
+  ⟨⟨fun _ => rfl, trivial⟩, fun hc h => sendData_ok c s sid d fin hc h⟩
+
+/-- `Http2Server` hands every event up with the stream id hyper-h2 reported it on (the identity; which frames belong
+    to which stream is hyper-h2's demultiplexing).  `HttpLayer` then looks the id up in `streams`: after any sequence
+    of `make_stream` / `DropStream`, the object found under an id is the `HttpStream` that was created FOR that id —
+    so the events of a client stream reach exactly the HttpStream registered under its id, or nobody. -/
+theorem demux_own_stream (ops : List LayerOp) (sid : Nat) (s : HStream)
+    (h : route (ops.foldl applyLayerOp []) sid = some s) : s.id = sid := by
+  have inv : ∀ (ops : List LayerOp) (l : List (Nat × HStream)), (∀ p ∈ l, p.2.id = p.1) →
+      ∀ p ∈ ops.foldl applyLayerOp l, p.2.id = p.1 := by
+    intro ops
+    induction ops with
+    | nil => intro l hl; exact hl
+    | cons op rest ih =>
+      intro l hl
+      simp only [List.foldl_cons]
+      apply ih
+      intro p hp
+      cases op with
+      | make k =>
+        have hp' : p ∈ aset k (⟨k⟩ : HStream) l := hp
+        rcases mem_aset k ⟨k⟩ l p hp' with h1 | h1
+        · subst h1; rfl
+        · exact hl p h1
+      | drop k =>
+        have hp' : p ∈ l.filter (fun q => q.1 != k) := hp
+        exact hl p (List.mem_filter.mp hp').1
+  have := inv ops [] (by intro p hp; simp at hp) (sid, s) (alookup_mem sid s _ h)
+  exact this
+
 /-- trailers wait for the buffered data of their stream, and the end of the stream is not requested twice -/
 theorem trailers_after_data (c : Conn) (s : Nat) (hb : c.buf s ≠ []) :
     (c.sendTrailers s).out = c.out ∧ (c.sendTrailers s).trl.contains s = true
